@@ -771,8 +771,8 @@ func c04Whitelists(r *ev.Run, g *rng.R, caseID string) {
 }
 
 func runC04(r *ev.Run) {
-	r.Rule = "(a) honest all-pairs traffic among 6 nodes with distinct keys on every secure stack: Src identity and the key looked up inside the handler (cancelled context) must be the sender's; (b) Tell/Ask to identity X at node Y's transport address must fail and never reach Y; (c) SSH client interleaving public-key queries for its own and a victim's key (soft-failing signers) with a real authentication, every ordering up to length 4; (e) raw P2PKE attacker on path under p2pkeswarm (answers a victim-addressed InitHello with its own key; handshakes and data at an established peer's transport address, across a rekey; lifts the cleartext identity claim of a genuine InitHello into its own handshake from a fresh address and sends data without, or with a bogus, InitDone); (f) whitelists of p2pkeswarm, quicswarm and wlswarm against telling and asking rejected peers. non-trivial = the adversarial connection/handshake got far enough that a callback could have fired, or a control message was delivered; distinct = (stack, attack, ordering)"
-	r.Assumptions = []string{"presenting a victim's certificate over QUIC without its private key is left to TLS (CertificateVerify) and not exercised", "fingerprint functions are each stack's default"}
+	r.Rule = "(a) honest all-pairs traffic among 6 nodes with distinct keys on every secure stack: Src identity and the key looked up inside the handler (cancelled context) must be the sender's; (b) Tell/Ask to identity X at node Y's transport address must fail and never reach Y; (c) SSH client interleaving public-key queries for its own and a victim's key (soft-failing signers) with a real authentication, every ordering up to length 4; (e) raw P2PKE attacker on path under p2pkeswarm (answers a victim-addressed InitHello with its own key; handshakes and data at an established peer's transport address, across a rekey; lifts the cleartext identity claim of a genuine InitHello into its own handshake from a fresh address and sends data without, or with a bogus, InitDone); (g) raw QUIC/TLS peer holding only its own key whose certificate chain claims the victim's key in five ways (victim certificate appended or leading, victim certificate alone, names and key identifiers of the victim), as a client of a live node and as the server a node dials for the victim's identity; (f) whitelists of p2pkeswarm, quicswarm and wlswarm against telling and asking rejected peers. non-trivial = the adversarial connection/handshake got far enough that a callback could have fired, or a control message was delivered; distinct = (stack, attack, ordering)"
+	r.Assumptions = []string{"TLS itself (CertificateVerify against the leaf certificate) is trusted; what is exercised is which certificate of a chain, and which of its fields, quicswarm takes the identity from", "fingerprint functions are each stack's default"}
 	g := rng.New(r.Seed, "C04", fmt.Sprint(r.Batch))
 	idx := 0
 	for _, sf := range secureStacks(isThorough(r)) {
@@ -797,8 +797,12 @@ func runC04(r *ev.Run) {
 		}
 	}
 	idx++
+	if r.Mine(idx) && r.Want("quic-claims") {
+		c04QUICClaims(r, g.Fork(), "quic-claims")
+	}
+	idx++
 	if r.Mine(idx) && r.Want("whitelists") {
 		c04Whitelists(r, g.Fork(), "whitelists")
 	}
-	r.Sample(map[string]any{"secure_stacks": len(secureStacks(isThorough(r))), "ssh_auth_orderings": 31, "attacks": []string{"wrong-identity address", "ssh auth interleaving", "p2pke on-path responder", "p2pke foreign handshake at bound address", "whitelist tell/ask"}})
+	r.Sample(map[string]any{"secure_stacks": len(secureStacks(isThorough(r))), "ssh_auth_orderings": 31, "attacks": []string{"wrong-identity address", "ssh auth interleaving", "p2pke on-path responder", "p2pke foreign handshake at bound address", "whitelist tell/ask", "quic certificate chains claiming the victim"}})
 }
